@@ -1095,7 +1095,58 @@ CALL_MODELS = [
     (r'^core::num::<impl u8>::is_ascii_whitespace$', lambda b: int(b in (0x20, 0x09, 0x0a, 0x0c, 0x0d))),
     (r'^core::num::<impl u8>::to_ascii_lowercase$', lambda b: b + 32 if 0x41 <= b <= 0x5a else b),
     (r'^core::num::<impl u(8|16|32|64|size)>::wrapping_add$', lambda a, b: a + b),
+    # value-preserving wrappers (whether they can fail is C01's business, not the evaluator's)
+    (r'(^|::)TryInto<U>>::try_into$|^std::convert::TryInto::try_into$', lambda a: a),
+    (r'^std::result::Result::<T, E>::(unwrap|expect)$', lambda a, *r: a),
+    (r'^std::option::Option::<T>::(unwrap|expect)$', lambda a, *r: a),
+    (r'^std::convert::num::<impl std::convert::From<u\d+> for u\w+>::from$', lambda a: a),
 ]
+
+
+def eval_fn(f, args, max_steps=4000):
+    """Evaluate a pure integer function concretely: args -> return value (None if it cannot be decided)."""
+    env = {i + 1: a for i, a in enumerate(args)}
+    rets = set(f.return_blocks())
+    r = eval_region(f, 0, env, skip_calls=True, assume_asserts=False, stop_at=rets, max_steps=max_steps)
+    if r[0] == 'arm' and r[1] in rets:
+        # run the statements of the return block
+        env2 = dict(r[2])
+        r2 = eval_region(f, r[1], env2, skip_calls=True, max_steps=50)
+        return r2[2].get(0)
+    return None
+
+
+def eval_expr(e, leaf, width=64):
+    """Evaluate a provenance expression over integers; leaf(e) supplies values of non-arithmetic leaves (or None)."""
+    if not isinstance(e, tuple) or not e:
+        raise KeyError(e)
+    k = e[0]
+    lv_ = leaf(e)
+    if lv_ is not None:
+        return lv_
+    if k == 'const':
+        if isinstance(e[1], int):
+            return e[1]
+        raise KeyError(e)
+    if k == 'cast':
+        v = eval_expr(e[2], leaf, width)
+        w = INT_W.get(e[3])
+        return v & ((1 << w) - 1) if w else v
+    if k == 'bin':
+        a, b = eval_expr(e[2], leaf, width), eval_expr(e[3], leaf, width)
+        r = _binop(e[1], a, b, width)
+        return r
+    if k == 'un' and e[1] == 'Not':
+        return (~eval_expr(e[2], leaf, width)) & ((1 << width) - 1)
+    if k == 'field' and e[2] == '0' and isinstance(e[1], tuple) and e[1][0] == 'bin' and e[1][1].endswith('WithOverflow'):
+        return eval_expr(e[1], leaf, width)[0]
+    if k in ('ref', 'deref'):
+        return eval_expr(e[1], leaf, width)
+    if k == 'call' and (e[1] in TRANSPARENT or e[1] in UNWRAPS or e[1].endswith('try_into')) and e[2]:
+        return eval_expr(e[2][0], leaf, width)
+    if k == 'field' and isinstance(e[1], tuple) and e[1][0] == 'variant' and e[1][2] in ('Ok', 'Some') and e[2] == '0':
+        return eval_expr(e[1][1], leaf, width)
+    raise KeyError(e)
 
 
 def _binop(op, a, b, w):
